@@ -182,7 +182,7 @@ Calls ==
   \cup UNION {{CallEdit(i, pos) : pos \in 1..Len(w[i].items)} : i \in {k \in 1..NI : w[k].ex /\ HasContent}}
   \cup {CallPoke(i) : i \in {k \in 1..NI : w[k].ex}}
   \cup (IF Kind \in {"Data3D", "Force"} THEN {c \in {CallAssignFrom(i, j) : i \in 1..NI, j \in 1..NI} : c.o.i # c.o.j /\ w[c.o.i].ex /\ w[c.o.j].ex} ELSE {})
-  \cup (IF Kind \in {"Data3D", "Force"} THEN {CallAssignSelf(i) : i \in {k \in 1..NI : w[k].ex}} ELSE {})
+  \cup (IF Kind \in {"Data3D", "Force", "FPCal"} THEN {CallAssignSelf(i) : i \in {k \in 1..NI : w[k].ex}} ELSE {})
 
 Fits(c) == \A i \in 1..NI : /\ Len(c.w2[i].items) <= MaxItems /\ c.w2[i].aux <= 2
                              /\ \A ch \in Range(c.w2[i].chans) : ch <= MaxChan
@@ -211,7 +211,7 @@ Encode(i)             == Ex(i) /\ Act(CallEncode(i))
 AuxEdit(i)            == Ex(i) /\ HasAux /\ Act(CallAux(i))
 EditItem(i, pos)      == Ex(i) /\ HasContent /\ pos <= Len(w[i].items) /\ Act(CallEdit(i, pos))
 Poke(i)               == Ex(i) /\ Act(CallPoke(i))
-AssignSelf(i)         == Ex(i) /\ Kind \in {"Data3D", "Force"} /\ Act(CallAssignSelf(i))
+AssignSelf(i)         == Ex(i) /\ Kind \in {"Data3D", "Force", "FPCal"} /\ Act(CallAssignSelf(i))
 AssignFrom(i, j)      == Ex(i) /\ Ex(j) /\ i # j /\ Kind \in {"Data3D", "Force"} /\ Act(CallAssignFrom(i, j))
 
 BulkRemove(i, ks)     == Ex(i) /\ HasBulk /\ Act(CallBulkRemove(i, ks))
